@@ -1786,6 +1786,8 @@ class Plate:
                     raise ValueError(
                         "zero length strings are not allowed as column labels"
                     )
+                if ':' in row:
+                    raise ValueError("':' is not allowed in a label (plate['A:1'] is the well in row A, column 1)")
             if len(rows) != len(set(rows)):
                 raise ValueError("duplicate row names found")
             self.n_rows = len(rows)
@@ -1812,6 +1814,8 @@ class Plate:
                     raise ValueError(
                         "zero length strings are not allowed as column labels"
                     )
+                if ':' in column:
+                    raise ValueError("':' is not allowed in a label (plate['A:1'] is the well in row A, column 1)")
             if len(columns) != len(set(columns)):
                 raise ValueError("duplicate column names found")
             self.n_columns = len(columns)
